@@ -21,6 +21,10 @@ func checkSpecs() map[string]CheckSpec {
 		{Func: "HC02_Swap", Domain: B, Covers: []string{"end"}},
 		{Func: "HC02_Collection", Domain: B, Covers: []string{"pushed", "rejected"}},
 	}, Explanation: "One inductive Push step from an arbitrary well-formed pre-state (shape symbolic inside the bounds) for Polygon, MultiLineString, MultiPoint, MultiPolygon, GeometryCollection; Reverse and Swap."})
+	add(CheckSpec{Property: "C04", Harnesses: []HarnessSpec{
+		{Func: "HC04_WKB", Domain: B, Covers: []string{"decoded", "error", "too-large"}},
+		{Func: "HC04_EWKB", Domain: B, Covers: []string{"decoded", "error", "too-large"}},
+	}, Explanation: "wkb.Unmarshal / ewkb.Unmarshal executed on an arbitrary symbolic byte string of symbolic length with symbolic per-level limits."})
 	add(CheckSpec{Property: "C08", Harnesses: []HarnessSpec{
 		{Func: "HC08_Tight", Domain: DomainK, Covers: []string{"end"}},
 		{Func: "HC08_Extend", Domain: DomainK, Covers: []string{"end"}},
